@@ -201,3 +201,36 @@ Proof.
   - rewrite (sumZ_ext _ (fun k => (fun k' => C k' c) k * Zb (Nat.eqb k l))) by (intros; lia). apply (sumZ_pick (fun k' => C k' c)).
   - rewrite (sumZ_ext _ (fun _ => 0)) by (intros; lia). rewrite sumZ_const. lia.
 Qed.
+
+(* ---------- Helmert: the explicit inverse.  With X = [1|C] and D = diag(n, 1*2, 2*3, ...) (reverse) resp. diag(n, (n-1)n, (n-2)(n-1), ...)
+              (forward), X^T X = D, i.e. the coefficient matrix D^-1 X^T satisfies (D^-1 X^T) X = I, for every n ---------- *)
+Definition D_helmert_rev (n i : nat) : Z := match i with O => zn n | S c => zn (S c) * zn (S c + 1) end.
+Definition D_helmert_fwd (n i : nat) : Z := match i with O => zn n | S c => zn (n - c - 1) * zn (n - c) end.
+Lemma sumZ_mul_comm f g n : sumZ (fun r => f r * g r) n = sumZ (fun r => g r * f r) n.
+Proof. apply sumZ_ext. intros; lia. Qed.
+Theorem helmert_rev_gram_full n i j : (i < n)%nat -> (j < n)%nat ->
+  sumZ (fun r => with_const helmert_rev r i * with_const helmert_rev r j) n = if Nat.eqb i j then D_helmert_rev n i else 0.
+Proof.
+  intros Hi Hj. destruct i as [|c1], j as [|c2]; cbn [with_const D_helmert_rev Nat.eqb].
+  - rewrite (sumZ_ext _ (fun _ => 1)) by (intros; lia). rewrite sumZ_const. lia.
+  - apply helmert_rev_orthogonal_to_const. lia.
+  - rewrite sumZ_mul_comm. apply helmert_rev_orthogonal_to_const. lia.
+  - destruct (le_lt_dec c1 c2) as [Hle|Hgt].
+    + apply helmert_rev_gram; lia.
+    + rewrite sumZ_mul_comm, (helmert_rev_gram n c2 c1) by lia.
+      rewrite (Nat.eqb_sym c1 c2). destruct (Nat.eqb_spec c2 c1); [lia | reflexivity].
+Qed.
+Theorem helmert_fwd_orthogonal_to_const n c : (S c < n)%nat -> sumZ (fun r => 1 * helmert_fwd n r c) n = 0.
+Proof. intro H. rewrite (sumZ_ext _ (fun r => helmert_fwd n r c)) by (intros; lia). apply helmert_fwd_columns_zero. exact H. Qed.
+Theorem helmert_fwd_gram_full n i j : (i < n)%nat -> (j < n)%nat ->
+  sumZ (fun r => with_const (helmert_fwd n) r i * with_const (helmert_fwd n) r j) n = if Nat.eqb i j then D_helmert_fwd n i else 0.
+Proof.
+  intros Hi Hj. destruct i as [|c1], j as [|c2]; cbn [with_const D_helmert_fwd Nat.eqb].
+  - rewrite (sumZ_ext _ (fun _ => 1)) by (intros; lia). rewrite sumZ_const. lia.
+  - apply helmert_fwd_orthogonal_to_const. lia.
+  - rewrite sumZ_mul_comm. apply helmert_fwd_orthogonal_to_const. lia.
+  - destruct (le_lt_dec c1 c2) as [Hle|Hgt].
+    + apply helmert_fwd_gram; lia.
+    + rewrite sumZ_mul_comm, (helmert_fwd_gram n c2 c1) by lia.
+      rewrite (Nat.eqb_sym c1 c2). destruct (Nat.eqb_spec c2 c1); [lia | reflexivity].
+Qed.
